@@ -22,7 +22,8 @@ RULE = ("a case is a history over the dataset names a..d (+ core.Dataset, an unk
         "share ids across datasets and refer to each other across datasets (single and array references, 2 predicates that share a target, "
         "several versions per id in every dataset, dropped references, deleted versions), create / delete / rename (also onto existing names, of missing names, of core.Dataset) / re-create, garbage "
         "collection with a raw key census before and after, restart, a crash at one of the nine hook points inside "
-        "create/rename/delete followed by a restart, datasets created with publicNamespaces, dataset handles taken before a delete and "
+        "create/rename/delete followed by a restart, datasets created with publicNamespaces, proxy and virtual datasets written locally "
+        "(Dataset.StoreEntities and single-dataset Store.ExecuteTransaction), dataset handles taken before a delete and "
         "written through afterwards (after the delete, after the collection), paged relation queries whose continuation is kept and used "
         "after datasets of its scope were deleted / renamed / collected (both directions); after most operations and at the end: dataset list, live dataset entities of "
         "core.Dataset, change feed and listing of every name, lookups and outgoing/incoming relation queries unscoped and scoped to "
@@ -201,6 +202,15 @@ def corpus_cases():
                        {"op": "batch", "ds": "s%2Be", "ents": [E("e1", "c")]}] + sp()
                + [http("DELETE", "s+e")] + sp() + [http("DELETE", "s%2Be")] + sp()
                + [http("PATCH", "s e", "s+e")] + sp() + [http("DELETE", "s e"), http("DELETE", "s+e"), http("DELETE", CORE)] + sp() + [{"op": "gc"}]})
+    # r4-3: proxy and virtual datasets that received LOCAL writes (transaction / StoreEntities): delete hides them like any other
+    cs.append({"ops": [{"op": "create", "ds": "a"}, {"op": "create", "ds": "b", "kind": "proxy"}, {"op": "create", "ds": "c", "kind": "virtual"},
+                       {"op": "batch", "ds": "a", "ents": [E("e1", "a", {"r1": "e2"}), E("e2")]},
+                       {"op": "txn", "sets": [{"ds": "b", "ents": [E("e1", "b", {"r2": "e3"}), E("e3", "b", {"r1": "e1"})]}]},
+                       {"op": "batch", "ds": "c", "ents": [E("e1", "c", {"r2": "e4"}), E("e4", "c", {"r1": "e1"})]}] + rd(["e1", "e3", "e4"], ["a", "b", "c"])
+               + [{"op": "delete", "ds": "b"}, {"op": "delete", "ds": "c"}] + rd(["e1", "e3", "e4"], ["a", "b", "c"])
+               + [{"op": "get", "id": U("e1"), "datasets": ["b"]}, {"op": "gc"}] + rd(["e1", "e3", "e4"], ["a", "b", "c"])
+               + [{"op": "restart"}] + rd(["e1", "e3", "e4"], ["a", "b", "c"])
+               + [{"op": "create", "ds": "b", "kind": "proxy"}] + rd(["e1"], ["b"]) + [{"op": "gc"}]})
     return cs
 
 
@@ -368,7 +378,14 @@ def gen_reads(rng, known, few, sim):
 def gen_case(rng, nops, crashy):
     """Every dataset gets several versions per id, deleted versions, dropped references and both predicates between a pair;
     see Sim for the one restriction (which targets get incoming queries)."""
-    ops = [{"op": "create", "ds": "a"}, {"op": "create", "ds": "b", "public": True} if rng.chance(1, 2) else {"op": "create", "ds": "b"}]
+    def kinded(o):
+        r = rng.below(8)
+        if r < 2:
+            o["kind"] = "proxy"
+        elif r < 3:
+            o["kind"] = "virtual"
+        return o
+    ops = [{"op": "create", "ds": "a"}, kinded({"op": "create", "ds": "b", "public": True} if rng.chance(1, 2) else {"op": "create", "ds": "b"})]
     known = set()
     sim = Sim()
     sim.create("a")
@@ -409,11 +426,11 @@ def gen_case(rng, nops, crashy):
             ids = list(IDS)
             rng.shuffle(ids)
             ents = [gen_ent(rng, i, known) for i in ids[:rng.choice([1, 2, 2, 3])]]
-            ops.append({"op": "batch", "ds": n, "ents": ents})
+            ops.append({"op": "txn", "sets": [{"ds": n, "ents": ents}]} if rng.chance(1, 4) else {"op": "batch", "ds": n, "ents": ents})
             sim.write(n, ents)
         elif r < 50:
             n = rng.choice(NAMES)
-            ops.append({"op": "create", "ds": n, "public": True} if rng.chance(1, 3) else {"op": "create", "ds": n})
+            ops.append(kinded({"op": "create", "ds": n, "public": True} if rng.chance(1, 3) else {"op": "create", "ds": n}))
             sim.create(n)
         elif r < 62:
             n = rng.choice(NAMES[:3] + ([CORE, "zz"] if rng.chance(1, 6) else []))
@@ -444,6 +461,8 @@ def gen_case(rng, nops, crashy):
             c = crash(mop, rng.choice(NAMES[:3]), rng.range(1, 3), rng.choice(NAMES) if mop == "rename" else None)
             if mop == "create" and rng.chance(1, 3):
                 c["public"] = True
+            if mop == "create":
+                kinded(c)
             ops.append(c)
             sim.crash(c)
             held = {}
@@ -525,6 +544,12 @@ def term(c, o):
         oo = o["ops"][i] if i < len(o.get("ops", [])) else {"err": "missing"}
         k = op["op"]
         bad = bool(oo.get("panic"))
+        if k == "txn":
+            # one dataset per transaction: Store.ExecuteTransaction instead of Dataset.StoreEntities, same model step
+            op = {"op": "batch", "ds": op["sets"][0]["ds"], "ents": op["sets"][0]["ents"]}
+            if oo.get("err", "").startswith("no dataset"):
+                oo = dict(oo, err="no dataset")
+            k = "batch"
         if k == "batch":
             lens = oo.get("lens") or [0] * len(op["ents"])
             ents = vlib.coq_list([sc.ent_term(CODES, e, l) for e, l in zip(op["ents"], lens)])
